@@ -288,6 +288,15 @@ class Interp(object):
     def class_ref(self, qual):
         return ClassRef(self.model.cls(qual))
 
+    def _class_attr_value(self, cls, name):
+        """a class attribute is evaluated ONCE, when the class body runs: every later access sees that same object (a sentinel
+        `MISSING = object()`, a shared list)"""
+        cache = self.__dict__.setdefault('_class_attr_cache', {})
+        key = (id(cls), name)
+        if key not in cache:
+            cache[key] = self.eval(cls.class_attrs[name], self._class_env(cls))
+        return cache[key]
+
     def new_obj(self, cls_qual, **attrs):
         o = Obj(self.model.cls(cls_qual))
         o.attrs.update(attrs)
@@ -1265,7 +1274,7 @@ class Interp(object):
                 if rv is not _MISSING:
                     return rv
             if name in cls.class_attrs:
-                return self.eval(cls.class_attrs[name], self._class_env(cls))
+                return self._class_attr_value(cls, name)
             rv = self._runtime_class_attr(cls, name)
             if rv is not _MISSING:
                 return rv
@@ -1299,7 +1308,7 @@ class Interp(object):
             if rv is not _MISSING:
                 return rv
             if name in o.info.class_attrs:
-                return self.eval(o.info.class_attrs[name], self._class_env(o.info))
+                return self._class_attr_value(o.info, name)
             rv = self._runtime_class_attr(o.info, name)
             if rv is not _MISSING:
                 return rv
